@@ -4,7 +4,8 @@
    so the histories are Routes x Sides x Ops^k; the factors are written out. *)
 EXTENDS MC_Alias, Json, IOUtils, SequencesExt
 Routes == {"seq_copy", "bar_copy", "track_copy", "composition_copy", "split_first", "split_second",
-           "split_bars", "split_bars_requantise", "split_bars_second_track", "split_bars_second_track_requantise"}
+           "split_bars", "split_bars_requantise", "split_bars_second_track", "split_bars_second_track_requantise",
+           "seq_copy_doubled"}
 Sides == {"derived", "original"}
 OpKinds == {"in_place", "structural"}
 GenInit == /\ heap = <<>> /\ objs = <<>> /\ want = <<>> /\ nextCell = 1 /\ ops = 0 /\ lastOp = "init"
